@@ -24,7 +24,7 @@ import (
 
 func TestMain(m *testing.M) { drv.Main(m) }
 
-const rule = "state machine over Set/Increase/Decrease/Remove/Clear on keys from alphabet {00,'a','b',ff} len 0..4 (shared prefixes, empty key), fan-out in {2,3,4,5,8,10,16,255}; oracle: map[string]big.Int + raw-store structural audit after every step; non-trivial = some node split AND some removal of a present key (or a removal that emptied a node); distinct by (fan-out, op history) hash"
+const rule = "state machine over Set/Increase/Decrease/Remove/Clear on keys from alphabet {00,'a','b',ff} len 0..4 (shared prefixes, empty key), plus bulk loads of m/2..3m+1 distinct two-byte keys (arithmetic progressions modulo 65536, so that every fan-out up to 255 overflows and splits its nodes, several levels for the small ones), fan-out in {2,3,4,5,7,8,10,16,32,128,254,255}; oracle: map[string]big.Int + raw-store structural audit after every step; non-trivial = some node split AND some removal of a present key (or a removal that emptied a node); distinct by (fan-out, op history) hash"
 
 type model struct {
 	m map[string]*big.Int
@@ -60,6 +60,24 @@ func genKey(rt *rapid.T, md *model, label string) []byte {
 		}
 	case 3:
 		return []byte{}
+	case 4: // a neighbour of an existing key (last byte +-1 or one byte appended): probes between bulk-loaded keys
+		ks := md.keys()
+		if len(ks) > 0 {
+			k := []byte(ks[rapid.IntRange(0, len(ks)-1).Draw(rt, label+"NIdx")])
+			switch rapid.IntRange(0, 2).Draw(rt, label+"NKind") {
+			case 0:
+				return append(k, alphabet[rapid.IntRange(0, len(alphabet)-1).Draw(rt, label+"NB")])
+			case 1:
+				if len(k) > 0 {
+					k[len(k)-1]++
+				}
+			default:
+				if len(k) > 0 {
+					k[len(k)-1]--
+				}
+			}
+			return k
+		}
 	}
 	n := rapid.IntRange(0, 4).Draw(rt, label+"Len")
 	k := make([]byte, n)
@@ -294,7 +312,7 @@ func checkIter(rt *rapid.T, tree sumtree.Tree, md *model, lo, hi []byte) {
 	}
 }
 
-var fanouts = []uint8{2, 3, 4, 5, 8, 10, 16, 255}
+var fanouts = []uint8{2, 3, 4, 5, 8, 10, 16, 255, 254, 128, 32, 7}
 
 func TestPropSumtree(t *testing.T) {
 	drv.Check(t, drv.Cfg{Name: "sumtree-vs-sorted-map", Rule: rule, Quick: 1500, Thorough: 60000, Steps: 40, TSteps: 80}, func(rt *rapid.T, c *drv.Case) {
@@ -305,7 +323,7 @@ func TestPropSumtree(t *testing.T) {
 		md := &model{m: map[string]*big.Int{"": new(big.Int)}}
 		var hist []string
 		indexRemovalsSkipped := 0
-		split, emptied, removed := false, false, false
+		split, emptied, removed, bulk := false, false, false, false
 		nodes := func() int {
 			lv, err := audit(store)
 			if err != nil {
@@ -403,6 +421,46 @@ func TestPropSumtree(t *testing.T) {
 				}
 				step(fmt.Sprintf("rm %q", k))
 			},
+			// bulk load: enough distinct keys to overflow nodes of the large fan-outs (255 needs 255 distinct keys before its
+			// first split; the four-letter alphabet above offers 341 keys in total and a history of tens of steps never gets there)
+			"bulk": func(rt *rapid.T) {
+				if rapid.IntRange(0, 3).Draw(rt, "bulkGate") != 0 {
+					rt.Skip("bulk loads in a quarter of the draws")
+				}
+				handle()
+				n := []int{int(m) / 2, int(m), int(m) + 1, 2 * int(m), 3*int(m) + 1}[rapid.IntRange(0, 4).Draw(rt, "bulkSize")]
+				if n < 2 {
+					n = 2
+				}
+				if n > 700 {
+					n = 700
+				}
+				start := rapid.IntRange(0, 65535).Draw(rt, "bulkStart")
+				stride := 2*rapid.IntRange(0, 5000).Draw(rt, "bulkStride") + 1
+				if rapid.Bool().Draw(rt, "bulkDescending") {
+					stride = 65536 - stride
+				}
+				useInc := rapid.Bool().Draw(rt, "bulkIncrease")
+				v := genAmt(rt, "bulkV")
+				for i := 0; i < n; i++ {
+					x := (start + i*stride) % 65536
+					k := []byte{byte(x >> 8), byte(x)}
+					amt := new(big.Int).Add(v, big.NewInt(int64(i)))
+					if useInc {
+						tree.Increase(k, toInt(amt))
+						old := md.m[string(k)]
+						if old == nil {
+							old = new(big.Int)
+						}
+						md.m[string(k)] = new(big.Int).Add(old, amt)
+					} else {
+						tree.Set(k, toInt(amt))
+						md.m[string(k)] = amt
+					}
+				}
+				bulk = true
+				step(fmt.Sprintf("bulk n=%d start=%d stride=%d inc=%v v=%s", n, start, stride, useInc, v))
+			},
 			"clear": func(rt *rapid.T) {
 				if rapid.IntRange(0, 9).Draw(rt, "clearGate") != 0 {
 					rt.Skip("rare")
@@ -422,6 +480,12 @@ func TestPropSumtree(t *testing.T) {
 		}
 		if split {
 			c.Class("split")
+			if m >= 128 {
+				c.Class("split-at-fanout>=128")
+			}
+		}
+		if bulk {
+			c.Class("bulk-load")
 		}
 		if emptied {
 			c.Class("node-emptied")
